@@ -146,10 +146,12 @@ class C15(Check):
             counters['acked_commands'] = model.acked
         kinds = done[0].get('kinds', [])
         # crash points: ('b', k) = right before the k-th mutating operation;
-        # ('a', k) = after an open-for-writing has executed but before the
-        # data written through it is flushed
+        # ('a', k) = after an open-for-writing (or a rename/link, which may
+        # put a still unflushed file in place) has executed but before the
+        # data written through an open file is flushed
         allp = [('b', k) for k in range(n_ops)] + \
-            [('a', k) for k, kd in enumerate(kinds) if kd == 'open:w']
+            [('a', k) for k, kd in enumerate(kinds)
+             if kd in ('open:w', 'os.rename', 'os.replace', 'os.link')]
         points = [tuple(p) for p in spec['points']] if spec.get('points') \
             else [p for n, p in enumerate(allp)
                   if n % spec['nchunks'] == spec['chunk']]
